@@ -14,7 +14,7 @@ OV["H_pClone"] = '''  rename_i hc
     have : h' ∉ s.liveS := fun hm => by have := (hH.live h').1 hm; simp_all
     exact List.nodup_append.2 ⟨hH.nodup, by simp, by intro a ha b hb; simp at hb; subst hb; intro e; subst e; exact this ha⟩
   case live => intro h2; have := hH.live h2; simp [List.mem_append]; grind
-  case fin_live => intro hf; have := hH.fin_live hf; have := (hH.live h).2 hc.1; simp_all
+  case fin_live => intro hf; rw [hc.2.2] at hf; simp at hf
   all_goals closeH hH'''
 
 OV["P_pBump"] = '''  all_goals (rename_i b hpc hsl hg _; have hfree := hS.owned_free h b (s.ppos h) hsl (Nat.le_refl _) hg.2)
